@@ -14,9 +14,10 @@
    one; upper / lower keep the length, are idempotent, upper leaves no lower-case letter and changes nothing else;
    swapcase is an involution.  REPLACE (C17_replace): replacing the non-overlapping occurrences of a non-empty `old`
    from left to right, at most `count` of them, is splitting on `old` into at most count + 1 pieces and joining the
-   pieces with `new`; hence replacing a pattern by itself, or zero occurrences, changes nothing.  Class predicates,
-   translate and zfill are not stated as theorems. *)
-From ArrRs Require Import Index Axis Broadcast Broadcast_proofs Str Str_proofs Strlaws_proofs Replace_proofs.
+   pieces with `new`; hence replacing a pattern by itself, or zero occurrences, changes nothing.  ZFILL / TRANSLATE
+   (C17_zfill, C17_translate): zfill inserts zeros after an optional leading minus sign up to the width and never
+   shortens; translate maps every character through the table.  The class predicates are their definitions. *)
+From ArrRs Require Import Index Axis Broadcast Broadcast_proofs Str Str_proofs Strlaws_proofs Replace_proofs Strlaws2.
 
 Theorem C17_lift2 : forall (U : Type) (f : str -> str -> U) (a b : arr str),
   wf a -> wf b -> pos_shape (shape a) -> pos_shape (shape b) -> is_broadcastable (shape a) (shape b) = Ok tt ->
@@ -105,3 +106,14 @@ Example C17_replace_nonvacuous :
   replace_str [97;97;97;98]%Z [97;97]%Z [120]%Z None = [120;97;98]%Z /\
   replace_str [97;45;98;45;99]%Z [45]%Z [43;43]%Z (Some 1) = [97;43;43;98;45;99]%Z.
 Proof. split; vm_compute; reflexivity. Qed.
+
+Theorem C17_zfill : forall (a : str) width,
+  length (s_zfill a width) = Nat.max (length a) width /\
+  exists sign zeros body, a = sign ++ body /\ s_zfill a width = sign ++ zeros ++ body /\
+    (sign = [] \/ sign = [45%Z]) /\ zeros = repeat 48%Z (length zeros) /\ (width <= length a -> zeros = []).
+Proof. exact zfill_spec. Qed.
+
+Theorem C17_translate : forall (a : str) table,
+  length (s_translate a table) = length a /\
+  forall k, k < length a -> nth k (s_translate a table) 0%Z = translate_c table (nth k a 0%Z).
+Proof. exact translate_spec. Qed.
